@@ -113,4 +113,9 @@ Proof. intros s c d. unfold interp_ok, gen_io_interp_up_fractional_nac. cbn [ind
 
 Lemma traced_index_ops_hold_K : traced_index_ops_ok K.
 Proof. unfold traced_index_ops_ok. repeat split; first [apply ok_up_fractional_holds | apply ok_up_fractional_nac_holds | apply ok_down_neg_nac_holds | apply ok_down_neg_flag_holds | apply (ok_roi2_holds K Kf Kc) | apply (ok_roi2_pad_holds K Kf Kc) | apply (ok_conv2_holds K Kf) | apply (ok_conv2_holds K Kf Kc) | apply (ok_crop_num_holds K Kf Kc) | apply (ok_crop_margin_holds K Kf Kc) | apply (ok_crop_mixed_holds K Kf Kc) | apply (ok_pad_num_holds K Kf Kc) | apply (ok_pad_margin_holds K Kf Kc) | apply (ok_center_crop_holds K Kf Kc) | apply (ok_center_crop_odd_holds K Kf Kc) | apply (ok_center_pad_holds K Kf Kc) | apply (ok_center_pad_odd_holds K Kf Kc) | apply (ok_narrow_x_holds K Kf Kc) | apply (ok_narrow_y_holds K Kf Kc) | apply (ok_crop3_holds K Kf Kc) | apply (ok_roi3_holds K Kf Kc) | apply (ok_narrow_z_holds K Kf Kc) | apply (ok_pool2_holds K Kf Kc) | apply (ok_pool_aniso_holds K Kf Kc) | apply ok_resize_default_holds | apply ok_resize_default_nac_holds | apply ok_resize_flag_holds | apply ok_down_default_holds | apply ok_down_default_nac_holds | apply ok_down_flag_holds | apply ok_down_dims_holds | apply ok_up_default_holds | apply ok_up_default_nac_holds | apply ok_up_flag_holds | apply ok_resize3_holds]. Qed.
+(* pyramid's sampling branch (explicit align_corners differing from the grid's flag): both axes of the point map are the cube
+   axes of the EFFECTIVE flag, for both flag combinations *)
+Lemma traced_pyramid_axes_hold :
+  gen_io_pyramid_axes = [(true, false, false); (false, true, true)].
+Proof. reflexivity. Qed.
 End C04Gen.
